@@ -196,13 +196,20 @@ func (a *linAn) accessPath(v ssa.Value, depth int) (string, bool) {
 			}
 			fld := fieldName(ad.X.Type(), ad.Field)
 			// a field this function stores to names the same memory only while no such store can
-			// have run in between: the path is used only for loads no store to the field reaches
+			// have run in between. A load that no store reaches uses the plain path; otherwise it
+			// shares a symbol with the earliest dominating load of the same path from which it
+			// cannot be reached by way of such a store (without passing that load again).
+			reached := false
 			for _, st := range a.storesTo[fld] {
 				if a.reaches(st, x) {
-					return "", false
+					reached = true
 				}
 			}
-			return base + "." + fld, true
+			if !reached {
+				return base + "." + fld, true
+			}
+			rep := a.loadRepresentative(x, ad, fld)
+			return base + "." + fld + "#" + rep.Name(), true
 		case *ssa.Alloc:
 			// a local assigned exactly once
 			var vals []ssa.Value
@@ -1556,4 +1563,96 @@ func (b *Body) negIdxThroughHelper(fn *ssa.Function, idx ssa.Value) (bool, strin
 		return true, "through " + fname(h) + ": index < 0 → option tested; option off → non-nil error; no successful return from the negative edge except through the option's true edge; the caller stops on the helper's error before touching an element", pos
 	}
 	return false, "", ""
+}
+
+
+// loadRepresentative: the earliest load of the same field of the same base that dominates
+// x and from which x cannot be reached by way of a store to the field without passing that
+// load again. x itself if there is none.
+func (a *linAn) loadRepresentative(x *ssa.UnOp, ad *ssa.FieldAddr, fld string) *ssa.UnOp {
+	var cands []*ssa.UnOp
+	allInstrs(a.fn, func(i ssa.Instruction) {
+		u, ok := i.(*ssa.UnOp)
+		if !ok || u.Op != token.MUL || u == x {
+			return
+		}
+		fa, ok := u.X.(*ssa.FieldAddr)
+		if !ok || fa.Field != ad.Field || !sameCollection(fa.X, ad.X) && fa.X != ad.X {
+			return
+		}
+		if fieldName(fa.X.Type(), fa.Field) != fld {
+			return
+		}
+		if !a.b.instrDominates(u, x) {
+			return
+		}
+		cands = append(cands, u)
+	})
+	best := x
+	for _, u := range cands {
+		ok := true
+		for _, st := range a.storesTo[fld] {
+			if a.reaches(u, st) && a.reachesAvoiding(st, x, u) {
+				ok = false
+			}
+		}
+		if ok && (best == x || a.b.instrDominates(u, best)) {
+			best = u
+		}
+	}
+	return best
+}
+
+// reachesAvoiding: instruction to can execute after from on a path that does not execute avoid.
+func (a *linAn) reachesAvoiding(from, to, avoid ssa.Instruction) bool {
+	fb, tb, ab := from.Block(), to.Block(), avoid.Block()
+	pos := func(bb *ssa.BasicBlock, ins ssa.Instruction) int {
+		for k, x := range bb.Instrs {
+			if x == ins {
+				return k
+			}
+		}
+		return -1
+	}
+	if fb == tb && pos(fb, from) < pos(tb, to) {
+		// straight line inside one block: avoid must not lie between
+		if ab != fb || pos(ab, avoid) < pos(fb, from) || pos(ab, avoid) > pos(tb, to) {
+			return true
+		}
+		return false
+	}
+	// leaving from's block: if avoid comes later in that block it is executed first
+	if ab == fb && pos(ab, avoid) > pos(fb, from) {
+		return false
+	}
+	seen := map[*ssa.BasicBlock]bool{}
+	var walk func(bb *ssa.BasicBlock) bool
+	walk = func(bb *ssa.BasicBlock) bool {
+		if seen[bb] {
+			return false
+		}
+		seen[bb] = true
+		if bb == tb {
+			// entering to's block from the top: avoid must not precede to in it
+			if ab == tb && pos(ab, avoid) < pos(tb, to) {
+				return false
+			}
+			return true
+		}
+		if bb == ab {
+			return false
+		}
+		for _, sx := range bb.Succs {
+			if walk(sx) {
+				return true
+			}
+		}
+		return false
+	}
+	for _, sx := range fb.Succs {
+		if walk(sx) {
+			return true
+		}
+	}
+	return false
 }
